@@ -72,18 +72,32 @@ func RunPipe(pipe gdbi.Pipeline, timeout time.Duration) Result {
 	defer cancel()
 	res := Result{DataType: pipe.DataType()}
 	out := pipeline.Start(ctx, pipe, MemManager{}, 5000, nil, nil)
+	// the timeout is an IDLE timeout (no traveler for that long), so a slow machine or a large answer is
+	// never mistaken for a traversal that does not finish; a hard cap of 40 timeouts bounds endless streams
 	timer := time.NewTimer(timeout)
 	defer timer.Stop()
+	hard := time.NewTimer(40 * timeout)
+	defer hard.Stop()
 	for {
 		select {
 		case t, ok := <-out:
 			if !ok {
 				return res
 			}
+			if !timer.Stop() {
+				select {
+				case <-timer.C:
+				default:
+				}
+			}
+			timer.Reset(timeout)
 			if !t.IsSignal() {
 				res.Rows = append(res.Rows, CanonRow(pipeline.Convert(pipe.Graph(), pipe.DataType(), pipe.MarkTypes(), t)))
 			}
 		case <-timer.C:
+			res.TimedOut = true
+			return res
+		case <-hard.C:
 			res.TimedOut = true
 			return res
 		}
